@@ -153,8 +153,13 @@ theorem parseFunctionParameters_spec (fuel : Nat) (st : PState) :
     rcases h2 with ⟨rfl, _, rfl⟩ | ⟨rfl, _, d⟩
     · vc
       simp only [Bool.not_true, Bool.false_eq_true, if_false]
-      vc
-      exact ⟨fun d => by simpa using h1.1 (by simpa using d), h1.2⟩
+      split
+      · vc
+        exact ⟨fun d => by simpa using h1.1 (by simpa using d), h1.2⟩
+      · vc
+        apply errorLine_wp
+        vc
+        exact ⟨fun _ => by simp [D], by simp⟩
     · simp only [Bool.not_false, if_true, wp_pure]
       exact ⟨fun _ => d, by simp⟩
 
